@@ -107,11 +107,23 @@ def mark_left_recursion(rules: Iterable[Rule]) -> list[Rule]:
                 if not leaders:
                     break
 
-            if not leaders:
-                leaders = set(scc)
+            if leaders:
+                leaders = {min(leaders)}
+            else:
+                # no rule is common to all the cycles of the component:
+                # every cycle needs a leader of its own (greedy cover, shortest cycles first)
+                cycles = []
+                for start in scc:
+                    for path in sccutils.find_cycles_in_scc(graph, scc, start):  # type: ignore
+                        cycle = set(path[path.index(path[-1]) :])
+                        if cycle not in cycles:
+                            cycles.append(cycle)
+                for cycle in sorted(cycles, key=lambda c: (len(c), sorted(c))):
+                    if not cycle & leaders:
+                        leaders.add(min(cycle))
 
-            leader_name = min(leaders)
-            rules[rule_index[leader_name]].is_lrec = True
+            for leader_name in leaders:
+                rules[rule_index[leader_name]].is_lrec = True
 
         elif len(scc) == 1:
             name = min(scc)
